@@ -97,13 +97,32 @@ theorem pratt_correct (prec : Prec) (hs : TableSane prec) (p : Nat) (t : Tree) (
     ∃ n, ∀ fuel, n ≤ fuel → parseE prec fuel p (flatten t ++ rest) = .ok (t, rest) :=
   Lemmas.Pratt.parseE_complete prec hs p t rest hn hr hsp
 
-/-- Soundness: whatever the loop returns is a normal tree whose flattening is the consumed
-input, and the remaining input does not bind tighter than the context. -/
+/-- Soundness: whatever the loop returns is a normal tree; after erasing every comma that
+directly precedes `)` or `]` (a trailing comma), the input is exactly the tree's flattening
+followed by the remaining input; and the remaining input does not bind tighter than the
+context or the tree's right spine. -/
 theorem pratt_sound (prec : Prec) (fuel p : Nat) (ts rest : List TokKind) (t : Tree)
+    (h : parseE prec fuel p ts = .ok (t, rest)) :
+    Lemmas.Pratt.dropTrailingCommas ts = flatten t ++ Lemmas.Pratt.dropTrailingCommas rest
+      ∧ normal prec p t = true ∧ headLbp prec rest ≤ p
+      ∧ rightSpineOK prec (headLbp prec rest) t = true :=
+  Lemmas.Pratt.parseE_sound_dropTC prec fuel p ts rest t h
+
+/-- Soundness without the proviso, for inputs that contain no trailing comma. -/
+theorem pratt_sound_exact (prec : Prec) (fuel p : Nat) (ts rest : List TokKind) (t : Tree)
+    (hntc : Lemmas.Pratt.hasTrailingComma ts = false)
     (h : parseE prec fuel p ts = .ok (t, rest)) :
     ts = flatten t ++ rest ∧ normal prec p t = true ∧ headLbp prec rest ≤ p
       ∧ rightSpineOK prec (headLbp prec rest) t = true :=
-  Lemmas.Pratt.parseE_sound prec fuel p ts rest t h
+  Lemmas.Pratt.parseE_sound_exact prec fuel p ts rest t hntc h
+
+/-- The proviso is needed: `[ 1 , ]` parses to the one-element list (kernel-checked). -/
+theorem pratt_sound_needs_proviso :
+    ¬ (∀ (prec : Prec) (fuel p : Nat) (ts rest : List TokKind) (t : Tree),
+        parseE prec fuel p ts = .ok (t, rest) →
+        ts = flatten t ++ rest ∧ normal prec p t = true ∧ headLbp prec rest ≤ p
+          ∧ rightSpineOK prec (headLbp prec rest) t = true) :=
+  Lemmas.Pratt.parseE_sound_false
 
 /-- Uniqueness: two normal trees with the same token sequence are the same tree — the
 operator table alone fixes the tree of an expression. -/
@@ -119,6 +138,20 @@ theorem normal_tree_unique (prec : Prec) (hs : TableSane prec) (t₁ t₂ : Tree
   rw [e₁] at e₂
   injection e₂ with e
   injection e with e _
+
+/-- A trailing comma in a list or an argument list never changes the tree: two inputs that
+differ only in trailing commas and both parse completely yield the same tree. -/
+theorem trailing_comma_irrelevant (prec : Prec) (hs : TableSane prec) (f₁ f₂ : Nat)
+    (ts₁ ts₂ : List TokKind) (t₁ t₂ : Tree)
+    (h₁ : parseE prec f₁ 0 ts₁ = .ok (t₁, [])) (h₂ : parseE prec f₂ 0 ts₂ = .ok (t₂, []))
+    (he : Lemmas.Pratt.dropTrailingCommas ts₁ = Lemmas.Pratt.dropTrailingCommas ts₂) : t₁ = t₂ := by
+  obtain ⟨e₁, n₁, _, s₁⟩ := pratt_sound prec f₁ 0 ts₁ [] t₁ h₁
+  obtain ⟨e₂, n₂, _, s₂⟩ := pratt_sound prec f₂ 0 ts₂ [] t₂ h₂
+  have hf : flatten t₁ = flatten t₂ := by
+    have : flatten t₁ ++ Lemmas.Pratt.dropTrailingCommas [] = flatten t₂ ++ Lemmas.Pratt.dropTrailingCommas [] := by
+      rw [← e₁, ← e₂, he]
+    simpa [Lemmas.Pratt.dropTrailingCommas] using this
+  exact normal_tree_unique prec hs t₁ t₂ n₁ n₂ (by simpa [headLbp] using s₁) (by simpa [headLbp] using s₂) hf
 
 /-- Fuel never runs out: the entry point's fuel is enough for every token list (totality of
 the expression parser; also used by C05). -/
